@@ -3,6 +3,8 @@ import ast
 
 from xlsa import Unmodelled, AnchorMissing
 from xlsa.load import walk_local, names_in, dotted
+from xlsa.consteval import Ref
+from xlsa.guards import Interp, Rec, PyModel, Opaque
 from xlsa import flow
 from .common import func_params, value_returns, last_return, XLERR, XLT, is_excel_error_ref
 
@@ -21,111 +23,133 @@ TRUSTED = ['jsonpickle reconstruction contract: __new__(cls, *__getnewargs__()) 
 MAPS = {'cells', 'defined_names', 'formulae', 'ranges'}
 
 
-def _inline(expr, fn):
-    """Replace single-assignment local names by their value (one level, repeated)."""
-    assigns = {}
-    for a in walk_local(fn):
-        if isinstance(a, ast.Assign) and len(a.targets) == 1 and isinstance(a.targets[0], ast.Name):
-            assigns.setdefault(a.targets[0].id, []).append(a.value)
+class _File(PyModel):
+    def __init__(self, log, opener, name, mode):
+        self.log = log
+        log.append(('open', opener, name, mode))
 
-    class T(ast.NodeTransformer):
-        def visit_Name(self, n):
-            if isinstance(n.ctx, ast.Load) and n.id in assigns and len(assigns[n.id]) == 1 and n.id not in func_params(fn):
-                return self.visit(ast.parse(ast.unparse(assigns[n.id][0]), mode='eval').body)
-            return n
-    return T().visit(ast.parse(ast.unparse(expr), mode='eval').body)
+    def write(self, data):
+        self.log.append(('write', data))
+
+    def read(self):
+        self.log.append(('read',))
+        return 'BYTES'
+
+    def __enter__(self):
+        return self
 
 
-def _opener_choice(fn):
-    """(predicate expr, value-if-true, value-if-false) of the opener selection."""
-    for n in walk_local(fn):
-        if isinstance(n, ast.IfExp) and 'gzip' in ast.unparse(n).lower():
-            return n.test, n.body, n.orelse, n
-    for n in walk_local(fn):
-        if isinstance(n, ast.If) and 'gzip' in ast.unparse(n).lower():
-            return n.test, n.body, n.orelse, n
-    return None
+class _Doc(PyModel):
+    def __init__(self, payload):
+        self.payload = payload
+
+    def encode(self, *a):
+        return ('encoded', self)
+
+
+def _persist_models(log, decoded=None):
+    def opener(kind):
+        def f(name, mode='r', *a, **k):
+            return _File(log, kind, name, mode)
+        return f
+
+    def encode(obj, **kw):
+        log.append(('encode', obj, kw))
+        return _Doc(obj)
+
+    def decode(data, **kw):
+        log.append(('decode', data, kw))
+        return decoded if decoded is not None else {'cells': 'C', 'defined_names': 'D', 'formulae': 'F', 'ranges': 'R'}
+    import os as _os
+    return {
+        'ext:gzip.GzipFile': opener('gzip'), 'ext:gzip.open': opener('gzip'), 'builtin:open': opener('plain'),
+        'ext:jsonpickle.encode': encode, 'ext:jsonpickle.decode': decode,
+        'ext:os.path.splitext': _os.path.splitext,
+    }
+
+
+def _run_persist(ctx, which, fname, build_code=False):
+    mm = ctx.mod('model')
+    fn = mm.func('Model.persist_to_json_file' if which == 'w' else 'Model.construct_from_json_file')
+    p = func_params(fn)
+    log = []
+    me = Rec(cls='pkg:model:Model', cells='CELLS', defined_names='NAMES', formulae='FORMULAE', ranges='RANGES', built=0)
+    env = {p[0]: me, p[1]: fname}
+    if which == 'r' and len(p) > 2:
+        env[p[2]] = build_code
+    models = _persist_models(log)
+    models['pkg:model:Model.build_code'] = lambda self_: self_.set('built', self_.get('built') + 1)
+    it = Interp(ctx.a, mm, env, inline_pkg=True, scope_fn=fn, self_class='pkg:model:Model', call_models=models)
+    it.env['open'] = Ref('builtin:open')
+    out = it.run(fn.body)
+    return fn, me, log, out
+
+
+WITNESS_FILES = [('model.json', 'plain'), ('model.gz', 'gzip'), ('model.gzip', 'gzip'), ('MODEL.JSON.GZ', 'gzip'), ('Model.Gzip', 'gzip'),
+                 ('model.gz.bak', 'plain'), ('model', 'plain'), ('gz', 'plain')]
 
 
 def rule_1(ctx):
-    mm = ctx.mod('model')
-    w = mm.func('Model.persist_to_json_file')
-    r = mm.func('Model.construct_from_json_file')
-    dicts = [n for n in walk_local(w) if isinstance(n, ast.Dict)]
-    if not dicts:
-        raise AnchorMissing('persist_to_json_file: output dict')
-    d = dicts[0]
-    written = {}
-    for k, v in zip(d.keys, d.values):
-        if isinstance(k, ast.Constant):
-            written[k.value] = ast.unparse(v)
-    ctx.expect(set(written) == MAPS, d, 'persisted keys', f'persisted keys are {sorted(written)}, expected {sorted(MAPS)}')
-    for k, v in sorted(written.items()):
-        ctx.expect(v == f'self.{k}', d, f'persisted[{k!r}] = self.{k}', f'key {k!r} stores {v}')
-    restored = {}
-    for a in walk_local(r):
-        if isinstance(a, ast.Assign) and isinstance(a.targets[0], ast.Attribute) and isinstance(a.value, ast.Subscript) \
-                and isinstance(a.value.slice, ast.Constant):
-            restored[a.targets[0].attr] = a.value.slice.value
-    ctx.expect(set(restored) == MAPS, r, 'restored attributes', f'restored attributes are {sorted(restored)}, expected {sorted(MAPS)}')
-    for attr, key in sorted(restored.items()):
-        ctx.expect(attr == key, r, f'self.{attr} = data[{key!r}]', f'attribute {attr} is restored from key {key!r}')
-    enc = [c for c in flow.calls_in(w) if ctx.res.resolve(c.func, mm) == 'ext:jsonpickle.encode']
-    dec = [c for c in flow.calls_in(r) if ctx.res.resolve(c.func, mm) == 'ext:jsonpickle.decode']
-    if len(enc) != 1 or len(dec) != 1:
-        raise AnchorMissing('jsonpickle encode/decode calls')
-
-    def kw(c, name):
-        for k in c.keywords:
-            if k.arg == name:
-                return ast.unparse(k.value)
-        return None
-    ctx.expect(kw(enc[0], 'keys') == kw(dec[0], 'keys') == 'True', enc[0], 'keys=True on both sides',
-               f'encode uses keys={kw(enc[0], "keys")}, decode keys={kw(dec[0], "keys")}: non-string keys are not restored alike')
-    for opt in ('unpicklable', 'make_refs', 'max_depth'):
-        ctx.expect(kw(enc[0], opt) in (None, 'True') if opt != 'max_depth' else kw(enc[0], opt) is None, enc[0], f'encode option {opt} default',
-                   f'encode is called with {opt}={kw(enc[0], opt)}: objects are not written in reconstructible form')
-    classes = kw(dec[0], 'classes') or ''
-    for cname in ('XLCell', 'XLFormula', 'XLRange', 'f_token'):
-        ctx.expect(cname in classes, dec[0], f'decode registers {cname}', f'{cname} is not among the classes handed to jsonpickle.decode')
-    # what is written is the encoded output, what is decoded is what was read
-    wr = [c for c in flow.calls_in(w) if isinstance(c.func, ast.Attribute) and c.func.attr == 'write']
-    ok = len(wr) == 1 and any(c is enc[0] for c in ast.walk(wr[0]))
-    ctx.expect(ok, w, 'the encoded document is what is written', 'the bytes written are not the jsonpickle document')
+    try:
+        fn, me, log, out = _run_persist(ctx, 'w', 'model.json')
+    except Unmodelled as exc:
+        raise Unmodelled(f'persist_to_json_file: {exc}')
+    enc = [e for e in log if e[0] == 'encode']
+    if len(enc) != 1:
+        raise Unmodelled(f'persist_to_json_file encodes {len(enc)} documents')
+    payload, kw = enc[0][1], enc[0][2]
+    want = {'cells': 'CELLS', 'defined_names': 'NAMES', 'formulae': 'FORMULAE', 'ranges': 'RANGES'}
+    ctx.expect(isinstance(payload, dict) and set(payload) == MAPS, fn, 'persisted keys',
+               f'persisted keys are {sorted(payload) if isinstance(payload, dict) else payload}, expected {sorted(MAPS)}')
+    if isinstance(payload, dict):
+        for k, v in sorted(want.items()):
+            ctx.expect(payload.get(k) == v, fn, f'persisted[{k!r}] = self.{k}', f'key {k!r} stores {payload.get(k)!r}, not the {k} map of the model')
+    ctx.expect(kw.get('keys') is True, fn, 'encode keys=True', f'jsonpickle.encode is called with keys={kw.get("keys")!r}')
+    for opt in ('unpicklable', 'make_refs'):
+        ctx.expect(kw.get(opt, True) is True, fn, f'encode option {opt} default', f'encode is called with {opt}={kw.get(opt)!r}')
+    writes = [e for e in log if e[0] == 'write']
+    ok = len(writes) == 1 and isinstance(writes[0][1], tuple) and writes[0][1][0] == 'encoded' and writes[0][1][1].payload is payload
+    ctx.expect(ok, fn, 'the encoded document is what is written', 'the bytes written are not the encoded jsonpickle document')
+    try:
+        rfn, rme, rlog, rout = _run_persist(ctx, 'r', 'model.json')
+    except Unmodelled as exc:
+        raise Unmodelled(f'construct_from_json_file: {exc}')
+    dec = [e for e in rlog if e[0] == 'decode']
+    if len(dec) != 1:
+        raise Unmodelled(f'construct_from_json_file decodes {len(dec)} documents')
+    dkw = dec[0][2]
+    ctx.expect(dec[0][1] == 'BYTES', rfn, 'the bytes read are what is decoded', 'the document handed to jsonpickle.decode is not what was read')
+    ctx.expect(dkw.get('keys') is True and kw.get('keys') is True, rfn, 'keys=True on both sides',
+               f'encode uses keys={kw.get("keys")!r}, decode keys={dkw.get("keys")!r}: non-string keys are not restored alike')
+    classes = dkw.get('classes') or ()
+    refs = {c.ref for c in classes if isinstance(c, Ref)} if isinstance(classes, (tuple, list, set)) else set()
+    for cname, ref in (('XLCell', 'pkg:xltypes:XLCell'), ('XLFormula', 'pkg:xltypes:XLFormula'), ('XLRange', 'pkg:xltypes:XLRange'),
+                       ('f_token', 'pkg:tokenizer:f_token')):
+        ctx.expect(ref in refs, rfn, f'decode registers {cname}', f'{cname} is not among the classes handed to jsonpickle.decode')
+    for attr, val in (('cells', 'C'), ('defined_names', 'D'), ('formulae', 'F'), ('ranges', 'R')):
+        ctx.expect(rme.f.get(attr) == val, rfn, f'self.{attr} = data[{attr!r}]',
+                   f'attribute {attr} is restored as {rme.f.get(attr)!r} (C=cells, D=defined_names, F=formulae, R=ranges)')
     ctx.floor(18, 'writer/reader agreement facts')
 
 
 def rule_2(ctx):
-    mm = ctx.mod('model')
-    w = mm.func('Model.persist_to_json_file')
-    r = mm.func('Model.construct_from_json_file')
-    cw, cr = _opener_choice(w), _opener_choice(r)
-    if cw is None or cr is None:
-        raise AnchorMissing('gzip/plain opener selection')
-    pw = ast.dump(_inline(cw[0], w))
-    pr = ast.dump(_inline(cr[0], r))
-    ctx.expect(pw == pr, cr[3], 'compression predicate identical on write and read',
-               f'writer chooses gzip when `{ast.unparse(_inline(cw[0], w))}`, reader when `{ast.unparse(_inline(cr[0], r))}`: a file '
-               'written compressed can be read back as plain text (or vice versa)')
-
-    def side(x):
-        return ast.unparse(x) if isinstance(x, ast.expr) else ' '.join(ast.unparse(s) for s in x)
-    ctx.expect(('gzip' in side(cw[1]).lower()) == ('gzip' in side(cr[1]).lower()), cr[3], 'same opener for the same predicate value',
-               'writer and reader map the predicate to opposite openers')
-    pred = ast.unparse(_inline(cw[0], w))
-    ctx.expect('.lower()' in pred and "'.gz'" in pred and "'.gzip'" in pred and 'splitext' in pred, cw[3],
-               'predicate = lower-cased extension in {.gzip, .gz}',
-               f'compression is chosen by `{pred}`, not by the lower-cased file extension being .gz/.gzip')
-    def opener_name(fn, choice):
-        st = flow.stmt_of(choice[3])
-        if isinstance(st, ast.Assign) and isinstance(st.targets[0], ast.Name):
-            return st.targets[0].id
-        return None
-    ow, orr = opener_name(w, cw), opener_name(r, cr)
-    modes_w = [ast.unparse(c.args[1]) for c in flow.calls_in(w) if isinstance(c.func, ast.Name) and c.func.id == ow and len(c.args) > 1]
-    modes_r = [ast.unparse(c.args[1]) for c in flow.calls_in(r) if isinstance(c.func, ast.Name) and c.func.id == orr and len(c.args) > 1]
-    ctx.expect(modes_w == ["'wb'"] and modes_r in (["'rb'"], ['"rb"']), w, 'binary modes wb / rb', f'open modes are {modes_w} / {modes_r}')
-    ctx.floor(4, 'compression agreement facts')
+    for fname, want in WITNESS_FILES:
+        got = {}
+        for which in ('w', 'r'):
+            try:
+                fn, me, log, out = _run_persist(ctx, which, fname)
+            except Unmodelled as exc:
+                raise Unmodelled(f'{"persist_to" if which == "w" else "construct_from"}_json_file({fname!r}): {exc}')
+            opens = [e for e in log if e[0] == 'open']
+            got[which] = (opens[0][1], opens[0][3]) if len(opens) == 1 else ('?', '?')
+        mm = ctx.mod('model')
+        ctx.expect(got['w'][0] == got['r'][0], mm.func('Model.construct_from_json_file'), f'{fname!r}: written and read with the same opener',
+                   f'{fname!r} is written with the {got["w"][0]} opener but read with the {got["r"][0]} opener: the file cannot be restored')
+        ctx.expect(got['w'][0] == want, mm.func('Model.persist_to_json_file'), f'{fname!r}: compression chosen by the lower-cased extension',
+                   f'{fname!r} is written {got["w"][0]}, expected {want} (gzip exactly for the extensions .gz/.gzip in any letter case)')
+        ctx.expect(got['w'][1] == 'wb' and got['r'][1] == 'rb', mm.func('Model.persist_to_json_file'), f'{fname!r}: binary modes wb / rb',
+                   f'open modes are {got["w"][1]!r} / {got["r"][1]!r}')
+    ctx.floor(24, 'file-name witnesses')
 
 
 def rule_3(ctx):
@@ -176,25 +200,18 @@ def rule_3(ctx):
 
 
 def rule_4(ctx):
+    fn, me, log, out = _run_persist(ctx, 'r', 'model.json', build_code=True)
+    ctx.expect(me.f.get('built') == 1, fn, 'build_code=True re-parses the formulas', 'construct_from_json_file(build_code=True) does not call build_code()')
+    order_ok = all(me.f.get(a) in ('C', 'D', 'F', 'R') for a in MAPS)
+    ctx.expect(order_ok, fn, 'maps restored before compiling', 'build_code() runs before all maps are restored')
+    fn2, me2, log2, out2 = _run_persist(ctx, 'r', 'model.json', build_code=False)
+    ctx.expect(me2.f.get('built') == 0, fn2, 'build_code=False leaves the formulas uncompiled', 'the formulas are compiled although build_code is False')
     mm = ctx.mod('model')
-    r = mm.func('Model.construct_from_json_file')
-    ok = any(isinstance(n, ast.If) and isinstance(n.test, ast.Name) and n.test.id == 'build_code'
-             and any(isinstance(c, ast.Call) and ast.unparse(c.func) == 'self.build_code' for s in n.body for c in ast.walk(s))
-             for n in walk_local(r))
-    ctx.expect(ok, r, 'build_code=True re-parses the formulas', 'construct_from_json_file(build_code=True) does not call build_code()')
     bc = mm.func('Model.build_code')
-    loops = [n for n in walk_local(bc) if isinstance(n, ast.For) and 'self.cells' in ast.unparse(n.iter)]
-    ok = len(loops) == 1 and any(isinstance(a, ast.Assign) and isinstance(a.targets[0], ast.Attribute) and a.targets[0].attr == 'ast'
-                                 and 'parse' in ast.unparse(a.value) for a in ast.walk(loops[0]))
-    ctx.expect(ok, bc, 'every formula cell gets a freshly parsed AST', 'build_code does not parse the formula of every cell')
-    # order of assignments: all four restored before build_code
-    if ok:
-        assigns = [a for a in walk_local(r) if isinstance(a, ast.Assign) and isinstance(a.targets[0], ast.Attribute)
-                   and a.targets[0].attr in MAPS]
-        call = [c for c in flow.calls_in(r) if ast.unparse(c.func) == 'self.build_code']
-        ok2 = bool(call) and all(flow.pos(a) < flow.pos(call[0]) for a in assigns)
-        ctx.expect(ok2, r, 'maps restored before compiling', 'build_code() runs before all maps are restored')
-    ctx.floor(3, 'recompilation facts')
+    parses = [c for c in flow.calls_in(bc) if isinstance(c.func, ast.Attribute) and c.func.attr == 'parse']
+    stores = [a for a in walk_local(bc) if isinstance(a, ast.Assign) and isinstance(a.targets[0], ast.Attribute) and a.targets[0].attr == 'ast']
+    ctx.expect(bool(parses) and bool(stores), bc, 'every formula cell gets a freshly parsed AST', 'build_code does not parse the formula of every cell')
+    ctx.floor(4, 'recompilation facts')
 
 
 RULES = [
